@@ -56,6 +56,7 @@ type isoDrv struct {
 	bulkEvery, nBulk   int
 	probeEvery, nProbe int
 	compact            bool
+	lastDump           [][][2]int // what the store showed after the last command (input generation only)
 	delExt             bool
 	nty                int // data types in the command mix (5, or 8 with bitmap / json / hll)
 	ncmd               int
@@ -226,7 +227,8 @@ func (d *isoDrv) emit(op string, u, a, b int, r int, rl []int) {
 	if rl == nil {
 		rl = []int{}
 	}
-	d.tw.Emit(trace.M{"ev": "cmd", "op": op, "u": u, "a": a, "b": b, "r": r, "rl": rl, "d": d.dump()})
+	d.lastDump = d.dump()
+	d.tw.Emit(trace.M{"ev": "cmd", "op": op, "u": u, "a": a, "b": b, "r": r, "rl": rl, "d": d.lastDump})
 	d.ncmd++
 	d.byOp[op]++
 }
@@ -306,6 +308,68 @@ func (d *isoDrv) one(op string, ty, t, k, a, b int) {
 		rr = 0
 	}
 	d.emit(op, u, a, b, rr, nil)
+}
+
+// lexOp: ZRANGEBYLEX / ZLEXCOUNT / ZREMRANGEBYLEX with bounds drawn from the sub-key names (the
+// empty name included: "[" or "(" alone) and the unbounded sides.  Redis defines lexicographic
+// ranges only for sorted sets whose members all have the same score, so the command is only
+// issued when the last dump showed that.
+func (d *isoDrv) lexOp(t, k int) {
+	u := isoTup(5, t, k)
+	if d.doomed[u-1] {
+		return
+	}
+	if d.lastDump != nil {
+		for _, e := range d.lastDump[u-1] {
+			if e[1] != d.lastDump[u-1][0][1] {
+				return
+			}
+		}
+	}
+	lo, hi, il, ih := d.rng.Intn(isoNS+1), d.rng.Intn(isoNS+1), d.rng.Intn(2), d.rng.Intn(2)
+	if d.rng.Intn(3) == 0 {
+		hi = lo // a range addressed to one member
+	}
+	bound := func(s, incl int, inf string) string {
+		if s == 0 {
+			return inf
+		}
+		if incl == 1 {
+			return "[" + d.subs[s-1]
+		}
+		return "(" + d.subs[s-1]
+	}
+	mn, mx := bound(lo, il, "-"), bound(hi, ih, "+")
+	a, b := lo*10+il, hi*10+ih
+	key := d.rkey(t, k)
+	switch d.rng.Intn(3) {
+	case 0:
+		r := d.wd.apply("zremrangebylex", key, mn, mx)
+		if _, bad := r.(error); bad {
+			d.nErr++
+		}
+		d.emit("zrembylex", u, a, b, isoReply(r), nil)
+	case 1:
+		rr := -998
+		if pmin, pmax, rt, err := node.VerifScanLexRange([]byte(mn), []byte(mx)); err == nil {
+			if n, err := d.wd.store.ZLexCount([]byte(key), pmin, pmax, rt); err == nil {
+				rr = int(n)
+			}
+		}
+		d.emit("zlexcount", u, a, b, rr, nil)
+	default:
+		rr := -998
+		rl := []int{}
+		if pmin, pmax, rt, err := node.VerifScanLexRange([]byte(mn), []byte(mx)); err == nil {
+			if ms, err := d.wd.store.ZRangeByLex([]byte(key), pmin, pmax, rt, 0, -1); err == nil {
+				rr = len(ms)
+				for _, m := range ms {
+					rl = append(rl, d.subPos(m))
+				}
+			}
+		}
+		d.emit("zrangebylex", u, a, b, rr, rl)
+	}
 }
 
 func (d *isoDrv) delTable(t int) {
@@ -561,6 +625,16 @@ func (d *isoDrv) step() {
 	case r < 7 && d.local:
 		d.runExpiry()
 		return
+	case r < 17 && r >= 12:
+		// lexicographic member ranges on a sorted set, preferably a hot one
+		t, k := 1+d.rng.Intn(isoNT), 1+d.rng.Intn(isoNK)
+		for _, h := range d.hot {
+			if h[0] == 5 {
+				t, k = h[1], h[2]
+			}
+		}
+		d.lexOp(t, k)
+		return
 	case r < 12:
 		d.keysOf(1+d.rng.Intn(5), 1+d.rng.Intn(isoNT))
 		return
@@ -637,12 +711,17 @@ func (d *isoDrv) step() {
 	case 5:
 		switch {
 		case x < 55:
+			if d.rng.Intn(10) < 6 {
+				v = 2 // mostly one score, so that the lexicographic range commands are defined
+			}
 			d.one("zadd", ty, t, k, s, v)
 		case x < 72:
 			d.one("zrem", ty, t, k, s, 0)
-		case x < 87:
+		case x < 80:
 			lo := 1 + d.rng.Intn(3)
 			d.one("zrembyscore", ty, t, k, lo, lo+d.rng.Intn(4-lo))
+		case x < 93:
+			d.lexOp(t, k)
 		default:
 			d.one("clear", ty, t, k, 0, 0)
 		}
@@ -762,6 +841,7 @@ func isosim(args []string) error {
 			d.hot = append(d.hot, [3]int{1 + rng.Intn(d.nty), 1 + rng.Intn(isoNT), 1 + rng.Intn(isoNK)})
 		}
 		d.size = [isoNTy * isoNT * isoNK]int{}
+		d.lastDump = nil
 		d.doomed = [isoNTy * isoNT * isoNK]bool{}
 		if *burst && d.local {
 			// keys of two data types expire in the same pass
